@@ -234,6 +234,7 @@ func propC06(r *Run) {
 		c06ClosureAll(r, l, L, []int{0, 2, L}, []int{-2, 0, 3})
 	}
 	c06ClosureScope(r)
+	c06EmptySpanScope(r)
 	// all strings up to a length over the location alphabet
 	maxLen := 4
 	if r.tier == "thorough" {
